@@ -236,5 +236,9 @@ C08_LevelLocal ==
   \A j \in Later : LET Q == Trace[j] IN
     (Q.poly = R.poly /\ SameFlagsExcept(Q, "none") /\ Ok /\ Q.out = "ok") =>
       \A z \in Requested(R) \cap Requested(Q) : HasRes(R, z) = HasRes(Q, z) /\ PolysAt(R, z) = PolysAt(Q, z) /\ FpAt(R, z) = FpAt(Q, z)
+(* a tile matrix cannot be "identical alone or together" if one of the two calls does not return at all *)
+C08_SameOutcome ==
+  \A j \in Later : LET Q == Trace[j] IN
+    (Q.poly = R.poly /\ SameFlagsExcept(Q, "none") /\ Requested(R) \cap Requested(Q) # {}) => (Ok <=> Q.out = "ok")
 C08_KeysRequested == Ok => \A i \in 1..Len(R.res) : R.res[i].z \in Requested(R)
 =============================================================================
